@@ -3,11 +3,43 @@
 package standard
 
 import (
+	"context"
 	"time"
 
+	"github.com/attestantio/go-eth2-client/api"
+	apiv1 "github.com/attestantio/go-eth2-client/api/v1"
 	"github.com/attestantio/go-eth2-client/spec/phase0"
 	"github.com/attestantio/vouch/internal/vnd"
+	"github.com/rs/zerolog"
 )
+
+// c03Chain answers the constructor's genesis and spec queries with the
+// (possibly symbolic) values of the harness.
+type c03Chain struct {
+	genesis       time.Time
+	slotDuration  time.Duration
+	slotsPerEpoch uint64
+}
+
+func (c *c03Chain) Genesis(_ context.Context, _ *api.GenesisOpts) (*api.Response[*apiv1.Genesis], error) {
+	return &api.Response[*apiv1.Genesis]{Data: &apiv1.Genesis{GenesisTime: c.genesis}, Metadata: map[string]any{}}, nil
+}
+
+func (c *c03Chain) Spec(_ context.Context, _ *api.SpecOpts) (*api.Response[map[string]any], error) {
+	return &api.Response[map[string]any]{Data: map[string]any{
+		"SECONDS_PER_SLOT": c.slotDuration,
+		"SLOTS_PER_EPOCH":  c.slotsPerEpoch,
+	}, Metadata: map[string]any{}}, nil
+}
+
+// c03New builds the service through its constructor, which fetches the genesis
+// time, SECONDS_PER_SLOT and SLOTS_PER_EPOCH from the providers.
+func c03New(genesis time.Time, slotDuration time.Duration, slotsPerEpoch uint64) *Service {
+	chain := &c03Chain{genesis: genesis, slotDuration: slotDuration, slotsPerEpoch: slotsPerEpoch}
+	s, err := New(context.Background(), WithLogLevel(zerolog.Disabled), WithGenesisProvider(chain), WithSpecProvider(chain))
+	vnd.Assert(err == nil && s != nil, "C03.new.accepted")
+	return s
+}
 
 // VerifC03_TimeInt: the slot/epoch/wall-clock conversions agree with one
 // another for every slot and every set of chain parameters (Int mode:
@@ -19,7 +51,7 @@ func VerifC03_TimeInt() {
 	vnd.Assume(spe >= 1 && spe <= 4096)
 	genesis := vnd.I64("genesis-unix-seconds")
 	vnd.Assume(genesis >= 0 && genesis < 1<<33)
-	s := &Service{genesisTime: time.Unix(genesis, 0), slotDuration: time.Duration(k) * time.Second, slotsPerEpoch: spe}
+	s := c03New(time.Unix(genesis, 0), time.Duration(k)*time.Second, spe)
 
 	slot := vnd.U64("slot")
 	// the bound of time.Duration: slot * duration must fit in int64 nanoseconds (~292 years)
@@ -63,7 +95,7 @@ func c03TimeNowAt(k uint64, spe uint64, nsec uint64) {
 	sec := vnd.U64("elapsed.sec")
 	vnd.Assume(sec < 1<<33 && nsec < 1000000000)
 	elapsed := time.Duration(sec)*time.Second + time.Duration(nsec)
-	s := &Service{genesisTime: time.Unix(0, vnd.NowNs()-int64(elapsed)), slotDuration: time.Duration(k) * time.Second, slotsPerEpoch: spe}
+	s := c03New(time.Unix(0, vnd.NowNs()-int64(elapsed)), time.Duration(k)*time.Second, spe)
 	cs := uint64(s.CurrentSlot())
 	ce := uint64(s.CurrentEpoch())
 	n := sec / k // the slot whose start is the latest one not after now
@@ -80,7 +112,7 @@ func c03TimeNowAt(k uint64, spe uint64, nsec uint64) {
 func VerifC03_TimePreGenesis() {
 	ahead := vnd.I64("genesis.ahead")
 	vnd.Assume(ahead > 0 && ahead < 1<<50)
-	s := &Service{genesisTime: time.Unix(0, vnd.NowNs()+ahead), slotDuration: 12 * time.Second, slotsPerEpoch: 32}
+	s := c03New(time.Unix(0, vnd.NowNs()+ahead), 12*time.Second, 32)
 	vnd.Assert(s.CurrentSlot() == 0 && s.CurrentEpoch() == 0, "C03.time.zero-before-genesis")
 	vnd.Cover("C03.time.pre-genesis")
 }
